@@ -284,13 +284,49 @@ func c19Controller(c *Ctx) {
 		reg := WholeFn(op)
 		kerrIs := func(v ssa.Value) bool { n, _ := NamedOf(v.Type()); return n == "KError" }
 		es := reg.EstablishingEdges(Cmp{token.EQL, kerrIs, ConstInt(notCtl)})
-		if len(es) == 0 {
+		// the test-and-refresh may have been extracted into a helper taking the response's error code:
+		// helper(code) { if code == ErrNotController { refreshController() } }
+		type start struct {
+			pt   Pt
+			at   ssa.Instruction
+			done bool // refresh already established by the helper
+		}
+		var starts []start
+		for _, e := range es {
+			starts = append(starts, start{Pt{e.To, 0}, lastInstr(e.From), false})
+		}
+		for _, s := range Info(op).Find(func(it Item) bool { cl, ok := it.In.(*ssa.Call); return ok && !cl.Call.IsInvoke() && cl.Call.StaticCallee() != nil }) {
+			cl := s.In.(*ssa.Call)
+			h := cl.Call.StaticCallee()
+			if h.Pkg != p.Sarama || len(h.Blocks) == 0 {
+				continue
+			}
+			for k, prm := range h.Params {
+				if !kerrIs(prm) || k >= len(cl.Call.Args) {
+					continue
+				}
+				hes := WholeFn(h).EstablishingEdges(Cmp{token.EQL, Same(prm), ConstInt(notCtl)})
+				good := len(hes) > 0
+				for _, he := range hes {
+					if it, _ := WholeFn(h).From(Pt{he.To, 0}).MustPrecede(p.CallTo("clusterAdmin.refreshController"), IsReturn()); !it.IsZero() {
+						good = false
+					}
+				}
+				if good {
+					starts = append(starts, start{s.After(), cl, true})
+				}
+			}
+		}
+		if len(starts) == 0 {
 			c.Fail(rule, op, "not-controller-handled", nil, "the closure of "+p.Name(host)+" never tests the response for ErrNotController: after a controller move the stale controller is asked again and the error is not recognised as retriable", nil)
 			continue
 		}
-		for _, e := range es {
-			sub := reg.From(Pt{e.To, 0})
+		for _, st := range starts {
+			sub := reg.From(st.pt)
 			it, path := sub.MustPrecede(p.CallTo("clusterAdmin.refreshController"), IsReturn())
+			if st.done {
+				it, path = Item{}, nil
+			}
 			okType := true
 			var badType string
 			for _, r := range sub.Find(IsReturn()) {
@@ -311,7 +347,7 @@ func c19Controller(c *Ctx) {
 					}
 				}
 			}
-			c.Check(it.IsZero() && okType, rule, op, "not-controller-refresh-and-retry", lastInstr(e.From), "on ErrNotController the controller is refreshed and a retriable error returned",
+			c.Check(it.IsZero() && okType, rule, op, "not-controller-refresh-and-retry", st.at, "on ErrNotController the controller is refreshed and a retriable error returned",
 				"on ErrNotController "+p.Name(host)+" does not refresh the controller before returning, or returns an error ("+badType+") that isErrNoController does not recognise: no retry on the new controller", path)
 		}
 	}
